@@ -281,10 +281,16 @@ def transform(src, mode, force=False):
     except TransformationError as e:
         res["status"], res["message"] = "refused", str(e.value)
         return res
+    except NotImplementedError as e:       # e.g. `b(b(i)) = ...`: the access analysis gives up
+        res["status"], res["message"] = "refused", "NotImplementedError: " + str(e)
+        return res
     try:
         text = FortranWriter()(psyir)
     except (GenerationError, VisitorError) as e:
         res["status"], res["message"] = "generation-error", str(e)
+        return res
+    except NotImplementedError as e:
+        res["status"], res["message"] = "refused", "NotImplementedError: " + str(e)
         return res
     res["status"], res["text"] = "accepted", text
     dirs = [ln for ln in text.splitlines() if ln.strip().lower().startswith("!$omp parallel")]
